@@ -165,4 +165,27 @@ TARGETS = {
                           "active": dict(pure=True), "limit": dict(pure=True)}),
         ],
     ),
+    # core/temporal.py itself (finite instants; the float-seconds branches are not translated): what the idiom table
+    # "Instant/Duration are integer nanoseconds" of the other targets rests on; and core/clock.py
+    "TemporalGen": dict(
+        out="Gen/TemporalGen.v", tie="C01/TimeTie.v", static_isinstance=True,
+        header="From HS Require Import Base.Prelude Base.PyLib.",
+        classes=[
+            dict(file="happysimulator/core/temporal.py", cls="Duration", fields={"nanoseconds": "Z"},
+                 methods={"__add__#dur": dict(params={"other": "Duration"}, pure=True), "__add__#int": dict(params={"other": "Z"}, pure=True),
+                          "__sub__#dur": dict(params={"other": "Duration"}, pure=True), "__sub__#int": dict(params={"other": "Z"}, pure=True),
+                          "__eq__": dict(params={"other": "Duration"}, pure=True), "__lt__": dict(params={"other": "Duration"}, pure=True),
+                          "__le__": dict(params={"other": "Duration"}, pure=True), "__gt__": dict(params={"other": "Duration"}, pure=True),
+                          "__ge__": dict(params={"other": "Duration"}, pure=True)}),
+            dict(file="happysimulator/core/temporal.py", cls="Instant", fields={"nanoseconds": "Z"},
+                 methods={"__add__#dur": dict(params={"other": "Duration"}, pure=True), "__add__#int": dict(params={"other": "Z"}, pure=True),
+                          "__sub__#inst": dict(params={"other": "Instant"}, pure=True), "__sub__#dur": dict(params={"other": "Duration"}, pure=True),
+                          "__sub__#int": dict(params={"other": "Z"}, pure=True),
+                          "__eq__": dict(params={"other": "Instant"}, pure=True), "__lt__": dict(params={"other": "Instant"}, pure=True),
+                          "__le__": dict(params={"other": "Instant"}, pure=True), "__gt__": dict(params={"other": "Instant"}, pure=True),
+                          "__ge__": dict(params={"other": "Instant"}, pure=True)}),
+            dict(file="happysimulator/core/clock.py", cls="Clock", fields={"_current_time": "Instant"},
+                 methods={"now": dict(pure=True), "update": dict(params={"time": "Instant"})}),
+        ],
+    ),
 }
